@@ -155,7 +155,12 @@ def sample_series(failing):
                                  ("modify", "d/b.txt", "one\ntwo and a half\nthree\nFOUR\n")], fail_file="d/b.txt")
     else:
         s.add_patch("p3.patch", [("modify", "n/new.txt", "fresh\nfile\nmore\n")])
-    s.add_patch("p4.patch", [("modify", "a.txt", "changed everything\n")]) if not failing else None
+    if not failing:
+        # one patch with two entries for the same file, and a file created in a new directory and changed again
+        v1 = "".join("line %d%s\n" % (i, " changed" if i in (3, 10) else (" twice" if i == 1 else "")) for i in range(1, 13))
+        v2 = "".join("line %d%s\n" % (i, " changed" if i in (3, 10) else (" twice" if i in (1, 12) else "")) for i in range(1, 13))
+        s.add_patch("p3b.patch", [("modify", "a.txt", v1), ("modify", "a.txt", v2), ("create", "deep/er/x.txt", "x\n")])
+        s.add_patch("p4.patch", [("modify", "a.txt", "changed everything\n"), ("modify", "deep/er/x.txt", "x\ny\n")])
     return s
 
 
@@ -382,7 +387,48 @@ def scen_c16(binary):
     return rc_all
 
 
-SCEN = {"C05": scen_c05, "C10": scen_c10, "C08": scen_c08, "C13": scen_c13, "C15": scen_c15, "C18": scen_c18, "C16": scen_c16}
+def scen_c17(binary):
+    rc_all = 0
+    for threads in ("1", "2", "4"):
+        for mode in ("missing", "garbled"):
+            s = sample_series(False)
+            root = tempfile.mkdtemp()
+            try:
+                s.materialize(root)
+                victim = os.path.join(root, "patches", "p2.patch")
+                if mode == "missing":
+                    os.unlink(victim)
+                else:
+                    open(victim, "w").write("--- a/a.txt\n+++ b/a.txt\n@@ -1,2 +1,2 @@\n line 1\n?garbage\n")
+                before = full_snapshot(root)
+                rc, out = push(binary, root, ["-a", "--threads", threads])
+                after = full_snapshot(root)
+                tag = "threads=%s patch %s" % (threads, mode)
+                if rc != 1:
+                    rc_all |= fail("%s: exit %d, expected 1" % (tag, rc))
+                # sequential pushes may legitimately have nothing to do; nothing may change in either driver
+                if before != after:
+                    ch = [p for p in set(before) | set(after) if before.get(p) != after.get(p)]
+                    rc_all |= fail("%s: the refused push changed %s" % (tag, ch[:5]))
+            finally:
+                shutil.rmtree(root, ignore_errors=True)
+    # goal: already applied / unknown
+    s = sample_series(False)
+    root = tempfile.mkdtemp()
+    try:
+        s.materialize(root)
+        push(binary, root, ["2", "--threads", "1"])
+        before = full_snapshot(root)
+        for goal in ("p1.patch", "p2.patch", "nosuch.patch"):
+            rc, out = push(binary, root, [goal, "--threads", "1"])
+            if rc != 1 or full_snapshot(root) != before:
+                rc_all |= fail("goal %s (already applied / unknown): exit %d, tree changed=%s" % (goal, rc, full_snapshot(root) != before))
+    finally:
+        shutil.rmtree(root, ignore_errors=True)
+    return rc_all
+
+
+SCEN = {"C17": scen_c17, "C05": scen_c05, "C10": scen_c10, "C08": scen_c08, "C13": scen_c13, "C15": scen_c15, "C18": scen_c18, "C16": scen_c16}
 
 if __name__ == "__main__":
     pid, binary = sys.argv[1], os.path.abspath(sys.argv[2])
